@@ -205,6 +205,13 @@ def r7_2_3(ctx: Ctx, f: Func):
                    + ("" if ok else " -- `%s` is not marked where it is enqueued" % child)
                    + ("" if guard_ok else " -- no 'not yet visited' guard around the enqueue"), node=c)
     ctx.floor("R7.3", n, 2, "enqueue sites")
+    # no early exit from the traversal body: every dequeued atom is re-positioned and its neighbours are scheduled
+    early = [n_ for n_ in walk_no_nested(loop) if isinstance(n_, (ast.Continue, ast.Break, ast.Return))]
+    inner_for = [n_ for n_ in loop.body if isinstance(n_, ast.For)]
+    early = [n_ for n_ in early if not any(any(n_ is x for x in ast.walk(l_)) for l_ in inner_for)]
+    ctx.ob("R7.3", f, early[0] if early else "traversal body", not early,
+           "every atom taken from the queue is re-positioned and its unvisited neighbours are enqueued (no early "
+           "continue/break that would leave a branch of the molecule unvisited)", node=early[0] if early else loop)
     # initial unvisited set covers all atoms
     if container and container.startswith("unvisited:"):
         nm = container.split(":")[1]
